@@ -758,9 +758,27 @@ def replay_line(rec):
             i += 1
         sp_idx = [j for j, s in enumerate(seq) if s[0] == "sp"]
         has_sweep = not any(s[0] in ("one", "sub") for s in seq) and len(sp_idx) > 2 and len(sizes) >= 2
-        sweep_idx = sp_idx[-11:] if has_sweep and len(sp_idx) >= 13 else []
-        if has_sweep and not sweep_idx and len(sp_idx) >= 2 + 10:
-            sweep_idx = sp_idx[-10:]
+        # the exhaustive sweep after the bisection: `current_spacing += spacing_change` from spacing_high while
+        # current_spacing <= spacing_high + step — 11 targets in exact arithmetic, 10 when the float accumulation
+        # overshoots the end; recognised by replaying that accumulation on the candidate start row
+        sweep_idx = []
+        if has_sweep:
+            for n_sw in (11, 10):
+                if len(sp_idx) < 2 + n_sw:
+                    continue
+                cand = sp_idx[-n_sw:]
+                cur = seq[cand[0]][1]
+                end = step + cur
+                ch = (end - cur) / 10
+                targets = []
+                while cur <= end and len(targets) <= 12:
+                    targets.append(cur)
+                    cur += ch
+                if len(targets) == n_sw and all(t == seq[j][1] for t, j in zip(targets, cand)):
+                    sweep_idx = cand
+                    break
+            if not sweep_idx:
+                sweep_idx = sp_idx[-11:] if len(sp_idx) >= 13 else (sp_idx[-10:] if len(sp_idx) >= 12 else [])
         hi_sp = Fraction(seq[sweep_idx[0]][1]) if sweep_idx else None
         for j, s in enumerate(seq):
             if s[0] == "one":
